@@ -140,3 +140,15 @@ CHECKS.update({
    note=STAT_NOTE + "Bandpass under shift, the where_close dedupe, minmass/maxsize/topn, ep, float images, refinement under transposition and real Pool workers are covered by correspondence only. "
         "Open known findings (printed as KNOWN-FINDING, exit 0): F13 ecc under transposition; F15/F17 exact mass-and-coordinate-sum ties in where_close under transposition / translation."),
 })
+CHECKS.update({
+ 'C14': dict(
+   text="Proof (partial: safety half): Properties/C14.v - for the model of FindLinker as the code is now (get_relocate_candidates step by step, relocate, merge_lost_subnets, assign_links): one "
+        "step keeps the linker state valid, labels unique, and every added feature lies within search_range of a live source, for ANY relocation oracle; no relocation candidate is closer "
+        "than separation to a point the frame already holds (masking argument; the fixed bg_radius provably covers it); candidates are within range of a searched position, pairwise "
+        "separated, outside the margin with finite mass >= minmass; the image search is an admissible oracle; by induction over frames (with memory) every output frame satisfies the safety "
+        "clauses; monitor sound; the pre-fix bg_radius (F12) and edge test (F16) are refuted on witnesses. Correspondence: get_relocate_candidates driven directly and compared as a set with "
+        "masses and ordering; find_link on blob movies and noise textures checked by the monitor.",
+   note=STAT_NOTE + "The completeness half (complete trajectories whatever is withheld; equals detect-then-link when nothing is withheld) is an analytic statement about blob images: no theorem "
+        "is possible, it is monitored on generated movies with withholding patterns. Isotropic parameters, integer pixel coordinates, no predictor; subnet bookkeeping of FindLinker is tied "
+        "only through the monitor."),
+})
